@@ -991,6 +991,12 @@ func callBuiltin(caller *frame, callpos token.Pos, fn *ssa.Builtin, args []value
 			return arg0
 		}
 		// append([]T, ...[]T) []T
+		if cur != nil && cur.freezeOn {
+			a0 := args[0].([]value)
+			if n := len(args[1].([]value)); n > 0 && cap(a0) >= len(a0)+n {
+				cur.checkSharedWrite(caller, &a0[:cap(a0)][len(a0)], "append into spare capacity")
+			}
+		}
 		return append(args[0].([]value), args[1].([]value)...)
 
 	case "copy": // copy([]T, []T) int or copy([]byte, string) int
